@@ -11,6 +11,7 @@ CONSTANTS
   RetryFailed = FALSE
   ClosedRejects = TRUE
   AtomicWrite = TRUE
+  RegisterAtGet = TRUE
   AtomicEvict = TRUE
   UniqueStamp = TRUE
   EvictChecksRef = TRUE
